@@ -368,6 +368,9 @@ impl FixedPoint {
                 // To parse this, we need the add post-fix zeros as necessary so that we have the right
                 // precision and then we can parse this as an u64 directly.
 
+                // Zeros at the end do not add precision
+                let decimal = decimal.trim_end_matches('0');
+
                 // Check that we have not already exceeded the precision
                 if decimal.len() > 15 {
                     return Err("floating point decimal excessive precision");
